@@ -378,4 +378,20 @@ theorem probeApply_spec (w : Worker) (p : Probe) (now : Nat)
         · exact Or.inr h
 
 end Worker
+theorem find?_id_of_mem : ∀ (l : List Worker), l.Pairwise (fun a b => a.id ≠ b.id) →
+    ∀ w ∈ l, l.find? (fun x => x.id == w.id) = some w
+  | [], _, w, hw => by cases hw
+  | x :: rest, hwf, w, hw => by
+    rw [List.pairwise_cons] at hwf
+    rcases List.mem_cons.mp hw with h | h
+    · subst h; simp
+    · have hne : x.id ≠ w.id := hwf.1 w h
+      rw [List.find?_cons]
+      have : (x.id == w.id) = false := by simpa using hne
+      rw [this]
+      exact find?_id_of_mem rest hwf.2 w h
+
+theorem Pool.find_of_mem {p : Pool} (hwf : p.WF) {w : Worker} (hw : w ∈ p.workers) :
+    p.find w.id = some w := find?_id_of_mem p.workers hwf w hw
+
 end ArvVerif.C14
